@@ -87,16 +87,18 @@ where
                         })
                     })
                     .collect();
-                // all forms agree (values or panics alike)
-                for (k, r) in res.iter().enumerate().skip(1) {
+                // the borrowed forms: counted when bit-identical to the owned form; judged below by value like it
+                let mut forms_identical = true;
+                for r in res.iter().skip(1) {
                     let same = match (&res[0], r) {
                         (Ok((u0, a0)), Ok((u1, a1))) => u0 == u1 && amt::same(*a0, *a1),
                         (Err(_), Err(_)) => true,
                         _ => false,
                     };
-                    if !same {
-                        rep.violation("C04/ownership-forms-differ", mk_case(), format!("form {}: {:?}", k, r.as_ref().map(|(u, a)| (*u, amt::show(*a)))), format!("form 0: {:?}", res[0].as_ref().map(|(u, a)| (*u, amt::show(*a)))));
-                    }
+                    forms_identical &= same;
+                }
+                if forms_identical {
+                    rep.inc("ownership_forms_bit_identical");
                 }
                 let exact_m = match dom {
                     Ok(m) => m,
@@ -132,6 +134,20 @@ where
                 rep.inc("value_checked");
                 let obs = rat_of(za);
                 let ok = obs.as_ref().map(|o| spec.within(o)).unwrap_or(false);
+                // every borrowed form that is not bit-identical to the owned one must itself be a value of the result
+                // type with the right magnitude
+                if !forms_identical {
+                    for (k, r) in res.iter().enumerate().skip(1) {
+                        let good = match r {
+                            Ok((u, a)) => c.bz.index_of(*u).and_then(|i| derived_spec(c.op, &xe, ml, &ye, mx, c.bz.um(i)))
+                                .map(|sp| rat_of(*a).map(|o| sp.within(&o)).unwrap_or(false)).unwrap_or(false),
+                            Err(_) => false,
+                        };
+                        if !good {
+                            rep.violation("C04/borrowed-form", mk_case(), format!("form {}: {:?}", k, r.as_ref().map(|(u, a)| (*u, amt::show(*a)))), format!("{} +- {:e} {} (form 0: {} {})", spec.v.show(), spec.tol(), c.bz.vname(iw), amt::show(za), c.bz.vname(iw)));
+                        }
+                    }
+                }
                 if !ok {
                     rep.violation(
                         "C04/magnitude",
